@@ -406,7 +406,11 @@ struct Gen
             // (a bounded cache pays a complete probe for every evicting insert: keep those smaller)
             static const uint32_t us[]  = {300, 520, 1100, 1500, 2200};
             static const uint32_t usc[] = {260, 300, 300, 400, 520};
-            uint32_t              u     = (tr.has_capacity ? usc : us)[r.below(5)] + (uint32_t)r.below(50);
+            // thorough tier: past the next powers of two as well (4096, 8192 for the unbounded containers, 1024 for caches)
+            static const uint32_t ust[]  = {300, 1100, 2200, 4300, 8400};
+            static const uint32_t usct[] = {260, 300, 400, 520, 1100};
+            const uint32_t*       tab    = tr.has_capacity ? (prof.thorough ? usct : usc) : (prof.thorough ? ust : us);
+            uint32_t              u      = tab[r.below(5)] + (uint32_t)r.below(50);
             if (tr.has_capacity)
             {
                 c.capacity = u;
@@ -590,8 +594,15 @@ struct Gen
 
 SeqPlan gen_seq_plan(uint64_t run_seed, const GenProfile& prof)
 {
-    Gen g(run_seed, prof);
-    return g.make();
+    Gen     g(run_seed, prof);
+    SeqPlan p = g.make();
+    // Client-thread lifetime (thread-per-call): decided from the run seed without drawing from the plan's
+    // stream, so every other choice of the plan is what it was.  rr keeps per-instance random state, which
+    // is what a per-thread replacement would break: half of C15's plans; one plan in 32 elsewhere.
+    uint64_t h = mix3(run_seed, 0x7468726561647321ULL, 11);
+    if (p.cfg.cont == Cont::rr && prof.prop == "C15" ? (h & 1) == 0 : (h & 31) == 0)
+        p.cfg.fresh_thread = true;
+    return p;
 }
 
 // ---------------------------------------------------------------------------
